@@ -214,6 +214,57 @@ def main(argv):
                         {"cmd": bl, "source": ln, "observed": rl}, key="message-roundtrip")
     c.sample({"emit": lines[0][:200], "datagram": r[0][:200]})
     c.assumptions += ["debug and release builds of the harness include /repo/src by #[path]"]
+    # ---- the same on the wire of real sessions, across the failure of an earlier request in the process (message buffers are
+    # pooled): an oversized request is refused, then another session's ordinary request must be the minimal encoding, octet for octet
+    big = [["1.3.6.1.4.1.%d.%d" % (i, i) for i in range(max(700, vf.constant("BUF_MAX_SIZE", 4080) // 6))]]
+    one = "1.3.6.1.2.1.1.1.0"
+    ascs = []
+    huge = [["1.3." + ".".join("4294967295" for _ in range(max(1000, vf.constant("BUF_MAX_SIZE", 4080) // 4)))]]
+    for ver_a, ver_b in (("v2c", "v2c"), ("v3", "v1"), ("v1", "v3"), ("v2c", "v3"), ("v2c", "v1"), ("v3", "v3")):
+        for sv in (ver_a, ver_b):
+            sc = {"version": sv, "mode": "sync", "timeout": 0.05, "community": "public",
+                  "steps": [{"op": "get", "args": [one], "replies": [[{"vbs": ""}]]}] if sv is ver_b and ascs and ascs[-1].get("_first") else None}
+            if sc["steps"] is None:
+                sc["steps"] = [{"op": "get_many", "args": big if len(ascs) % 4 == 0 else huge, "replies": [[]]}]
+                sc["_first"] = True
+            if sv == "v3":
+                sc["v3"] = {"user": "u0", "auth": None, "priv": None, "engine_id": "80001f8880a1b2c3d4", "agent_engine_id": "80001f8880a1b2c3d4", "boots": 0, "time": 0}
+            ascs.append(sc)
+    resa, loga = vf.run_api_worker("C15", {"scenarios": [{k: v for k, v in sc.items() if not k.startswith("_")} for sc in ascs]})
+    if resa is None:
+        c.errors.append("API worker failed: " + loga[-1500:])
+    else:
+        for sc, rec in zip(ascs, resa["records"]):
+            if "driver_error" in rec:
+                c.errors.append("API driver error: " + rec["driver_error"])
+                continue
+            out = rec["steps"][0]
+            if sc.get("_first"):
+                c.count(("api-oversize", sc["version"]), True)
+                if out.get("exc") != "SnmpEncodeError" or out["emitted"]:
+                    c.violation("a request far beyond the message buffer was not refused cleanly (%s, %d datagrams sent)" % (out.get("exc"), len(out["emitted"])),
+                                {"version": sc["version"], "outcome": out.get("exc")}, key="api-oversize")
+                continue
+            c.count(("api-after-failure", sc["version"]), True)
+            if len(out["emitted"]) != 1:
+                c.violation("after another session's refused request, an ordinary %s get() sent %d datagrams (%s)" % (sc["version"], len(out["emitted"]), out.get("exc")),
+                            {"version": sc["version"], "outcome": out.get("exc")}, key="api-after-failure-not-sent")
+            for raw_hex, q in zip(out["emitted"], out["requests"]):
+                raw = bytes.fromhex(raw_hex)
+                if "error" in q or not q.get("pdu"):
+                    c.violation("after another session's refused request, a %s get() goes out malformed: %s" % (sc["version"], q.get("error")),
+                                {"datagram": raw_hex}, key="api-after-failure-malformed")
+                    continue
+                rid = q["pdu"]["request_id"]
+                p = ber.pdu(0xA0, rid, 0, 0, [ber.varbind(ber.enc_oid([1, 3, 6, 1, 2, 1, 1, 1, 0]), b"\x05\x00")])
+                if sc["version"] == "v3":
+                    want = ber.msg_v3(q["msg_id"], 0, ber.usm_params(bytes.fromhex("80001f8880a1b2c3d4"), 0, 0, b"u0", b"", b""),
+                                      ber.scoped_pdu(bytes.fromhex("80001f8880a1b2c3d4"), b"", p), max_size=vf.constant("V3_MAX_SIZE", 2048))
+                else:
+                    want = ber.msg_community({"v1": 0, "v2c": 1}[sc["version"]], b"public", p)
+                if raw != want:
+                    c.violation("after another session's refused request, a %s get() is not the minimal encoding of what was asked: %d octets, expected %d"
+                                % (sc["version"], len(raw), len(want)), {"datagram": raw_hex, "expected": want.hex()}, key="api-after-failure-encoding")
     return c.finish(
         rule="OBJECT IDENTIFIER text encoder on every sub-identifier 2^(7k)-2..2^(7k)+1 and random OIDs; INTEGER: every value of 1..%d content octets, +-%d around every +-2^(8k-1), +-2^(8k), %d random; non-trivial = needs more than "
              "one content octet. OIDs and v1/v2c/v3 Get/GetNext/GetBulk messages with 0..120 OIDs, community/user/engine id lengths across "
@@ -247,3 +298,11 @@ def roundtrip_matches(req_line, out):
             return out == head + "plain(%s,%s(%s;%s)))" % (ctx, kind, rid, oids)
         return out == head + "enc(%s))" % data.split(":")[1]
     return True
+
+
+def api_main(g, job):
+    import sys
+    import os
+    sys.path.insert(0, os.path.join(vf.VERIF, "harness", "py"))
+    import scen
+    return scen.api_main_generic(g, job)
